@@ -552,6 +552,10 @@ fn apply_power_loss(dir: &Path, v: &Variant) {
                 keep.push((wi < v.wk, false));
                 wi += 1;
             }
+            // a truncation of the log (tail cut / rollback) is not a pager operation: as in the model it
+            // takes effect for good (if it were lost, the cut-off bytes would come back and the next
+            // append would cut them again)
+            J::L { file, .. } if file.ends_with(".wal") => keep.push((true, false)),
             J::W { .. } | J::L { .. } => {
                 let torn = v.torn == Some(pi);
                 keep.push((torn || (pi < 64 && (v.mask >> pi) & 1 == 1), torn));
@@ -587,8 +591,9 @@ fn apply_power_loss(dir: &Path, v: &Variant) {
                 let n = if *torn { data.len() / 2 } else { data.len() };
                 write_at(file, *offset, &data[..n]);
             }
-            J::L { file, new_len, .. } => {
-                if std::fs::metadata(file).map(|m| m.len()).unwrap_or(0) < *new_len {
+            J::L { file, new_len, old_len } => {
+                let cur = std::fs::metadata(file).map(|m| m.len()).unwrap_or(0);
+                if cur < *new_len || (*new_len < *old_len && file.ends_with(".wal")) {
                     truncate(file, *new_len);
                 }
             }
